@@ -124,8 +124,12 @@ def random_scenario(rng: random.Random, c: dict) -> dict:
             if op[0] == 'redisp' and op[2] == -1:
                 op[2] = first_bus[op[1]]
     sc = {'seed': rng.randrange(1 << 30), 'buses': buses, 'fwd': fwd, 'handlers': handlers, 'actors': actors}
-    if c['jitter'] and rng.random() < 0.5:
-        sc['loop'] = {'jitter': 1e-7}
+    if c['jitter']:
+        x = rng.random()
+        if x < 0.4:
+            sc['loop'] = {'jitter': 1e-7}  # coinciding timers fire in either order
+        elif x < 0.55:
+            sc['loop'] = {'jitter': 1e-7, 'cpu': rng.choice([1e-6, 2e-5, 1e-4])}  # every loop iteration costs a little time
     return sc
 
 
